@@ -5,12 +5,12 @@ package main
 // R04.zero, R04.nlm, R10.supp).
 
 import (
-	"os"
 	"fmt"
 	"go/ast"
 	"go/token"
 	"go/types"
 	"math/big"
+	"os"
 	"sort"
 	"strings"
 )
